@@ -267,6 +267,20 @@ func listShape(x *X, depth int, budget *int, top bool) *ref.Block {
 			return nil
 		}
 		it := []*ref.Block{p([]string{"one", "two"}[i])}
+		// The item's first block may be one whose line the block parser consumes
+		// whole (an ATX heading, a thematic break) instead of a paragraph:
+		// whatever "the previous line was blank" state a paragraph line resets
+		// must be reset by those lines too.
+		kind := 0
+		if i == n-1 && !top {
+			kind = x.ChooseFree(3) // only for the last item of each nested list: keeps the space near 10^6
+		}
+		switch kind {
+		case 1:
+			it[0] = &ref.Block{Kind: ref.BATX, Level: 1, Inl: []ref.Inl{word([]string{"one", "two"}[i])}}
+		case 2:
+			it[0] = &ref.Block{Kind: ref.BBreak}
+		}
 		if depth > 0 && x.ChooseFree(2) == 1 {
 			sub := listShape(x, depth-1, budget, false)
 			if sub == nil {
@@ -700,7 +714,7 @@ func init() {
 				term := []string{">", "", " ", "\t", "/>", " x>", "x"}[x.ChooseFree(7)]
 				c06HTMLBlockDriver(x, []string{open + name + term, "y", "", "z"})
 			})
-			c.Inputs(spRawTag, c.Pick(6, 7), c06RawDriver)
+			c.Inputs(spRawTag, c.Pick(5, 7), c06RawDriver)
 			c.Inputs(spRawAttr, c.Pick(6, 7), c06RawDriver)
 			c.Inputs(spRawDecl, c.Pick(5, 6), c06RawDriver)
 			nl := c.Pick(3, 4)
